@@ -16,9 +16,11 @@ import (
 type Placement struct {
 	Out       string `json:"out"`
 	Pkg       string `json:"pkg"`
-	Loaded    bool   `json:"loaded"`     // the file is part of the package moq loads next time
-	Writable  bool   `json:"writable"`   // a run can succeed in writing it
-	NeedsDirs bool   `json:"needs_dirs"` // parents are missing initially
+	Loaded    bool   `json:"loaded"`            // the file is part of the package moq loads next time
+	Writable  bool   `json:"writable"`          // a run can succeed in writing it
+	NeedsDirs bool   `json:"needs_dirs"`        // parents are missing initially
+	Abs       bool   `json:"abs,omitempty"`     // -out is given as an absolute path
+	Symlink   string `json:"symlink,omitempty"` // -out is a symlink to this existing file (relative to the link's directory)
 }
 
 // Placements the generator chooses from.
@@ -30,6 +32,12 @@ var Placements = []Placement{
 	{Out: "../blocker/x.go", Pkg: "blocker"},
 	{Out: "../adir", Pkg: ""},
 	{Out: "sub/m_gen.go", Pkg: "sub", Writable: true, NeedsDirs: true},
+	// the same in-place file under other spellings of its path
+	{Out: "./mock_gen.go", Loaded: true, Writable: true},
+	{Out: "../src/mock_gen.go", Loaded: true, Writable: true},
+	{Out: "mock_gen.go", Loaded: true, Writable: true, Abs: true},
+	// -out is a symbolic link to an existing file elsewhere
+	{Out: "../mocks/link_gen.go", Pkg: "mocks", Writable: true, Symlink: "../linktarget/real_gen.go"},
 }
 
 // Step kinds.
@@ -61,7 +69,10 @@ type Step struct {
 type Scenario struct {
 	Seed  uint64    `json:"seed"`
 	Place Placement `json:"placement"`
-	Steps []Step    `json:"steps"`
+	// IncompleteMod: the scratch module's go.mod lacks a requirement the go
+	// command could add by itself (every run must fail and touch nothing)
+	IncompleteMod bool   `json:"incomplete_mod,omitempty"`
+	Steps         []Step `json:"steps"`
 }
 
 func (s Step) String() string {
@@ -92,6 +103,9 @@ func (s Step) String() string {
 
 func (sc *Scenario) String() string {
 	var p []string
+	if sc.IncompleteMod {
+		p = append(p, "[go.mod incomplete]")
+	}
 	for _, s := range sc.Steps {
 		p = append(p, s.String())
 	}
@@ -132,9 +146,10 @@ func GenScenario(tp *tape.Tape, seed uint64, pf Profile) *Scenario {
 	if tp.Chance(150, 1000) {
 		sc.Place = Placements[4+tp.Int(2)]
 	} else {
-		w := []int{0, 0, 0, 1, 2, 3, 6}
+		w := []int{0, 0, 0, 1, 2, 3, 6, 7, 8, 9, 10, 10}
 		sc.Place = Placements[w[tp.Int(len(w))]]
 	}
+	sc.IncompleteMod = tp.Chance(70, 1000)
 	n := 1 + tp.Int(5)
 	hadRun := false
 	broken := false
@@ -186,7 +201,8 @@ func genRun(tp *tape.Tape, pf Profile, pl Placement) Step {
 	case 3:
 		st.Flags = append(st.Flags, "-fmt", "gofmt")
 	}
-	lists := [][]string{{"Alpha"}, {"Alpha", "Beta"}, {"Beta", "Alpha"}, {"Alpha:MyAlpha", "Beta"}, {"Gamma"}, {"Alpha", "Gamma", "Beta"}, {"Beta"}}
+	lists := [][]string{{"Alpha"}, {"Alpha", "Beta"}, {"Beta", "Alpha"}, {"Alpha:MyAlpha", "Beta"}, {"Gamma"}, {"Alpha", "Gamma", "Beta"}, {"Beta"},
+		{"Codec"}, {"Codec", "Alpha"}, {"Beta", "Codec"}, {"Enc", "Dec"}}
 	st.Names = append([]string(nil), lists[tp.Int(len(lists))]...)
 	st.Rm = tp.Chance(pf.RmPM, 1000)
 	st.Stdout = tp.Chance(pf.StdoutPM, 1000)
@@ -226,6 +242,11 @@ func genRun(tp *tape.Tape, pf Profile, pl Placement) Step {
 			}
 			if st.Stdout {
 				f.Path = "<stdout>"
+				if tp.Int(3) == 0 {
+					// a real failing destination instead of an injected one:
+					// the process's standard output is /dev/full
+					f.Action, f.Errno = "devfull", "ENOSPC"
+				}
 			}
 		}
 		st.Fault = f
